@@ -420,6 +420,37 @@ def rule_disc(ctx) -> None:
                   f"sidecar name is <snapshot>{suf}: never ends with '.json'", f"sidecar name `{src(inl)[:50]}` can end with '.json' and be picked as a snapshot")
 
 
+def rule_agent_file_names(ctx) -> None:
+    """"for all agents": the body an agent writes is the body its loader looks for, in the snapshot directory.  The agent id is
+    ONE component of the name `state_<agent>.json`: wherever the module builds that name, the id has passed an encoding of
+    path separators ('/' -> an escape), the same in the writer and the loader.  Joined verbatim, an id such as "team/A" is
+    written into a sub-directory discovery never lists (the agent's own load finds nothing or another agent's file) and
+    "../x" leaves the snapshot directory."""
+    sites = []
+    for fn in ctx.prog.module(SNAP).funcs.values():
+        for x in walk_no_defs(fn.node):
+            if isinstance(x, ast.JoinedStr) and x.values and isinstance(x.values[0], ast.Constant) and str(x.values[0].value).startswith("state_") \
+                    and isinstance(x.values[-1], ast.Constant) and str(x.values[-1].value).endswith(".json") and any(isinstance(v, ast.FormattedValue) for v in x.values):
+                sites.append((fn, x))
+    ctx.floor("C06.DISC", "constructions of an agent's snapshot file name", len(sites), 1)
+    for fn, x in sites:
+        cfg = ctx.cfg(fn)
+        rd = ctx.rd(fn)
+        nd = cfg.node_containing(x)
+        dyn = [v.value for v in x.values if isinstance(v, ast.FormattedValue)]
+        sl = rd.slice(dyn, nd[0]) if nd else None
+        calls = sl.calls() if sl else []
+        encoded = any((call_tail(c) == "replace" and c.args and const_str(c.args[0]) in ("/", "\\") ) or call_tail(c) in ("quote", "quote_plus", "basename") for c in calls)
+        ctx.check(encoded, "C06.DISC", ctx.okey(f"{fn.qual}/agent-id-is-one-path-component"), fn.loc(x), f"`{src(x)[:40]}`: path separators in the id are escaped before it enters the name",
+                  f"`{src(x)[:40]}` joins the agent id into the file name verbatim: an id with a path separator is written into a sub-directory that discovery (top level only) never lists - the agent's "
+                  "own load finds nothing, or another agent's file - and '..' climbs out of the snapshot directory")
+    # one construction for writer and loader
+    pats = {"".join(str(v.value) if isinstance(v, ast.Constant) else "{}" for v in x.values) for _, x in sites}
+    ctx.check(len(pats) == 1, "C06.DISC", f"{SNAP}/one-name-for-writer-and-loader", "clematis/engine/snapshot.py",
+              f"every construction of the name uses the pattern {sorted(pats)}",
+              f"the name is built with different patterns {sorted(pats)}: writer and loader disagree on the file an agent owns")
+
+
 # ------------------------------------------------------------------- MARK
 def rule_mark(ctx) -> None:
     w = ctx.func(SNAP + ":write_snapshot")
@@ -646,6 +677,16 @@ def rule_own_snapshot(ctx) -> None:
     before ranking by mtime."""
     wr = ctx.func(SNAP + ":_snapshot_path")
     wfmt = [x for x in walk_no_defs(wr.node) if isinstance(x, ast.JoinedStr)]
+    # the name is either spelled in the writer or made by a helper the writer calls
+    helpers = set()
+    if not wfmt:
+        for c in [x for x in walk_no_defs(wr.node) if isinstance(x, ast.Call)]:
+            r = ctx.prog.callee(wr, c)
+            if r and r[1] in ctx.prog.funcs:
+                hf = [x for x in walk_no_defs(ctx.prog.funcs[r[1]].node) if isinstance(x, ast.JoinedStr) and any(isinstance(v, ast.Constant) and str(v.value).endswith(".json") for v in x.values)]
+                if hf:
+                    wfmt = hf
+                    helpers.add(ctx.prog.funcs[r[1]].name)
     if not wfmt:
         raise AnalysisError("anchor-vanished: the writer's snapshot file name pattern")
     wlit = "".join(v.value for v in wfmt[0].values if isinstance(v, ast.Constant))
@@ -660,7 +701,8 @@ def rule_own_snapshot(ctx) -> None:
         if pref is not None:
             inl = rd.inline(pref, n)
             lits = "".join(v.value for x in ast.walk(inl) if isinstance(x, ast.JoinedStr) for v in x.values if isinstance(v, ast.Constant))
-            ok = ("agent_id" in src(inl)) and (lits == wlit or "_snapshot_path" in src(inl))
+            same_helper = any(isinstance(y, ast.Call) and call_tail(y) in helpers for y in ast.walk(inl))
+            ok = ("agent_id" in src(inl)) and (lits == wlit or "_snapshot_path" in src(inl) or same_helper)
         ctx.check(ok, "C06.DISC", f"{ld.qual}/asks-for-own-snapshot", ld.loc(c), f"the loader asks the picker for the loading agent's own body ({wlit.replace('.json', '<agent>.json')})",
                   "the loader picks the newest snapshot of the shared directory without naming the loading agent: a fresh state of one agent is restored from another agent's snapshot whenever "
                   "that one was written last")
@@ -686,4 +728,5 @@ def run(ctx) -> None:
     rule_clamp(ctx)
     rule_every_record_reaches_the_body(ctx)
     rule_disc(ctx)
+    rule_agent_file_names(ctx)
     rule_mark(ctx)
